@@ -61,20 +61,3 @@ def C08_real_multiplier(fcase, params):
         return False
     return _passes_without_multiply(c)
 
-
-def C08_zero_jump_then_shortcut(fcase, params):
-    """F-C08-zero-jump-then-shortcut: '0J' directly in front of a shortcut"""
-    c = fcase.get("case") or {}
-    if fcase.get("stream") != "read" or fcase.get("kind") != "exception:IndexError":
-        return False
-    toks = c.get("toks", [])
-    pos = [i for i, t in enumerate(toks[:-1])
-           if t.get("k") == "j" and re.match(r"^0+[jJ]$", t["t"]) and toks[i + 1].get("k") in ("r", "m", "i", "l")]
-    if not pos:
-        return False
-    import props.C08 as C08
-    c2 = dict(c, toks=[t for i, t in enumerate(toks) if i not in pos])
-    try:
-        return C08.run_read_case(c2) is None
-    except Exception:
-        return False
